@@ -88,10 +88,7 @@ func c05Literal(v VarSpec) (string, bool) {
 
 func C05(c *run.Check) {
 	defer finishTriage()
-	maxSet := 3
-	if !c.Quick() {
-		maxSet = 4
-	}
+	maxSet := 4 // the larger universe runs in seconds: used in both tiers
 	vals := c05Operands(maxSet)
 	d := vdoc(c05Strings)
 	var exprs []refExpr
